@@ -109,3 +109,14 @@ def product_intersection(tier):
         runs.append(dict(name="ProductIntersection-" + v, module="ProductIntersection", timeout=600, expect=("violates", "LangOK"),
                          why="sensitivity variant of the model", cfg=base % (1, v, "INVARIANT LangOK\n")))
     return runs
+
+
+def acyclic_paths(tier):
+    """AcyclicPaths.tla: FiniteAutomaton.is_acyclic (stack of (state, path) entries) over every small graph, start set and
+    visiting order; the shared-visited-set variant (a diamond reported as a cycle) must be refuted."""
+    base = 'SPECIFICATION Spec\nCONSTANTS N = %d\n MaxE = %d\n Variant = "%s"\n%s' + DL
+    invs = "".join("INVARIANT %s\n" % i for i in ("Exact", "PathsReal", "PathsBounded", "Bounded"))
+    n, e = (3, 3) if tier == "quick" else (3, 4)
+    return [dict(name="AcyclicPaths", module="AcyclicPaths", timeout=1800, workers=16, cfg=base % (n, e, "code", invs)),
+            dict(name="AcyclicPaths-sharedVisited", module="AcyclicPaths", timeout=600, expect=("violates", "Exact"),
+                 why="sensitivity variant of the model", cfg=base % (3, 3, "sharedVisited", "INVARIANT Exact\n"))]
